@@ -9,7 +9,9 @@ isolation level SERIALIZABLE / READ UNCOMMITTED / AUTOCOMMIT, abandoned savepoin
 dropping the Connection without close + gc, detach, invalidate (hard / soft), DBAPI-level
 work through ``engine.raw_connection()`` or ``conn.connection.cursor()`` that the
 SQLAlchemy transaction never saw, a COMMIT that fails on a deferred foreign key (then close /
-rollback + close / inside engine.begin() / through an ORM Session) ...) and gives it back.  Configurations: QueuePool
+rollback + close / inside engine.begin() / through an ORM Session), a close() / rollback() /
+commit() that itself raises a non-disconnect error (injected DBAPI failure or a raising
+``rollback`` event hook) while the connection still goes back ...) and gives it back.  Configurations: QueuePool
 (size 1-2, FIFO/LIFO), SingletonThreadPool, StaticPool, AssertionPool, NullPool x
 reset_on_return in {rollback, commit, None} x ``reset`` event listener present / absent x
 engine level isolation (default, READ UNCOMMITTED, AUTOCOMMIT) x skip_autocommit_rollback x
@@ -45,7 +47,7 @@ META = {
     "id": "C24",
     "level": "exploration",
     "technique": "pool checkout-event monitor reading the raw DBAPI connection (spy ledger) + independent observer connection, over generated histories of state-leaving users x pool class x reset_on_return",
-    "level_text": "Seeded histories (3-9 users each) over 31 user behaviours x 5 pool classes x 3 reset modes x reset-listener x 3 engine isolation settings; every hand-out of a previously used raw connection is judged at the checkout event itself against the backend-visible state (in_transaction, uncommitted rows, committed rows, isolation level / autocommit attribute).",
+    "level_text": "Seeded histories (3-9 users each) over 36 user behaviours x 5 pool classes x 3 reset modes x reset-listener x 3 engine isolation settings; every hand-out of a previously used raw connection is judged at the checkout event itself against the backend-visible state (in_transaction, uncommitted rows, committed rows, isolation level / autocommit attribute).",
     "level_note": "SQLite only (PostgreSQL / MariaDB have no server here): 'isolation level' is PRAGMA read_uncommitted plus the sqlite3 isolation_level attribute that implements AUTOCOMMIT. Single-threaded histories (concurrency is C25's subject); overlapping holders only on QueuePool(size 2).",
     "design_ref": "DESIGN.md section 4, C24",
     "rule": "case = (configuration, list of user behaviours); non-trivial = at least one hand-out of a raw connection that an earlier user had left dirty (open transaction / changed isolation / DBAPI-level work) was judged; distinct by (config, behaviours)",
@@ -53,7 +55,7 @@ META = {
     "soft_s": {"quick": 150, "thorough": 800},
     "require": ["judged_checkouts", "judged_after_dirty_user", "fresh_checkouts", "reset_rollbacks_seen",
                 "isolation_changes_seen", "gc_finalized_users", "vacuous_checkouts", "exec_option_checks", "failed_commits",
-                "multi_option_users", "reconnect_users"],
+                "multi_option_users", "reconnect_users", "failed_ends"],
     "assumptions": ["sqlite3.Connection.in_transaction reports the backend transaction state",
                     "a fresh connection's state is the engine default"],
 }
@@ -65,14 +67,19 @@ ACTIONS = [
     "iso_invalidate", "raw_leave_open", "raw_commit", "raw_via_conn", "exec_options_only", "begin_leave",
     "commit_fails_close", "commit_fails_rollback_close", "commit_fails_in_engine_begin", "session_commit_fails",
     "multi_options", "multi_options", "invalidate_continue", "invalidate_continue",
+    "close_txn_rollback_fails", "close_rollback_hook_fails", "rollback_fails_then_close",
+    "commit_dbapi_fails_then_close", "raw_rollback_fails_then_close",
 ]
+# users whose LAST call raises (a non-disconnect error) although the connection still goes back
+FAILING_END = {"close_txn_rollback_fails", "close_rollback_hook_fails", "rollback_fails_then_close",
+               "commit_dbapi_fails_then_close", "raw_rollback_fails_then_close"}
 FAILED_COMMIT = {"commit_fails_close", "commit_fails_rollback_close", "commit_fails_in_engine_begin",
                  "session_commit_fails"}
 DIRTY = {
     "leave_open", "raise_in_begin", "integrity_error", "savepoint_abandon", "iso_serializable", "iso_read_uncommitted",
     "iso_autocommit", "iso_autocommit_leave", "iso_ru_leave_open", "iso_then_error", "gc_drop", "gc_drop_iso",
     "raw_leave_open", "raw_via_conn", "begin_leave",
-} | FAILED_COMMIT | {"multi_options", "invalidate_continue"}
+} | FAILED_COMMIT | FAILING_END | {"multi_options", "invalidate_continue"}
 
 
 class Monitor:
@@ -167,6 +174,13 @@ class Env:
         if config.get("skip_acr"):
             kw["skip_autocommit_rollback"] = True
         self.eng = self.spy.engine(path, connect_kw={"timeout": 0.05}, **kw)
+        self.hook_boom = False
+
+        def rollback_hook(conn):
+            if self.hook_boom:
+                self.hook_boom = False
+                raise RuntimeError("rollback hook failed")
+        sa.event.listen(self.eng, "rollback", rollback_hook)
         # what users connect through: the engine itself or an OptionEngine that applies
         # connection characteristics (logging_token / isolation_level) on every connect
         self.engine_opts = dict(config.get("engine_opts") or {})
@@ -370,6 +384,61 @@ def run_user(env, action, rng):
         elif commit_reset:
             env.maybe.add(i)
         c.close()
+    elif action in FAILING_END:
+        import sqlite3
+
+        def arm(kind):
+            def fault(ev):
+                if ev.kind == kind:
+                    env.spy.fault = None
+                    env.ctx.count("injected_end_failures")
+                    return sqlite3.OperationalError("injected failure of %s()" % kind)
+            env.spy.fault = fault
+
+        try:
+            if action == "raw_rollback_fails_then_close":
+                rc = eng.raw_connection()
+                cur = rc.cursor()
+                cur.execute("INSERT INTO t (id) VALUES (?)", (i,))
+                cur.close()
+                arm("rollback")
+                try:
+                    rc.rollback()
+                except sqlite3.OperationalError:
+                    env.ctx.count("failed_ends")
+                rc.close()
+                if ac_raw:
+                    env.sure.add(i)
+                elif commit_reset:
+                    env.maybe.add(i)
+            else:
+                c = eng.connect()
+                ins(c, i)
+                if ac:
+                    env.sure.add(i)
+                elif commit_reset and action != "commit_dbapi_fails_then_close":
+                    env.maybe.add(i)      # released with the pool's regular reset, which is a commit
+                try:
+                    if action == "close_txn_rollback_fails":
+                        arm("rollback")
+                        c.close()
+                    elif action == "close_rollback_hook_fails":
+                        env.hook_boom = True
+                        c.close()
+                    elif action == "rollback_fails_then_close":
+                        arm("rollback")
+                        c.rollback()
+                    else:
+                        arm("commit")
+                        c.commit()
+                        env.sure.add(i)           # (only if the armed failure did not happen)
+                except (sa.exc.DBAPIError, RuntimeError):
+                    env.ctx.count("failed_ends")
+                c.close()
+                del c
+        finally:
+            env.spy.fault = None
+            env.hook_boom = False
     elif action in FAILED_COMMIT:
         # a row whose deferred foreign key is violated: the INSERT succeeds, COMMIT fails
         # (under AUTOCOMMIT the statement itself fails) and the transaction stays open
@@ -567,7 +636,8 @@ def run(ctx):
                                            {"logging_token": "w", "isolation_level": "READ UNCOMMITTED"}]),
             }
             n = rng.randint(3, 9)
-            acts = ACTIONS if config["reset"] is not None else [a for a in ACTIONS if a not in ("detach",) and a not in FAILED_COMMIT]
+            acts = ACTIONS if config["reset"] is not None else [a for a in ACTIONS if a not in ("detach",) and a not in FAILED_COMMIT
+                                                                  and a not in FAILING_END]
             actions = [rng.choice(acts) for _ in range(n)]
             # a clean user after the dirty ones, so the last dirty state is looked at too
             actions.append(rng.choice(["nothing", "commit"]))
